@@ -16,6 +16,10 @@ package main
 //   proxy_append_error_continues : downStream.appendHeaders handles an error of responseSender.AppendHeaders by logging only
 //                          (block of the `if err := ...; err != nil` has nothing but log calls), and appendData / appendTrailers
 //                          discard the sender's result or only log it (go/ast)
+//   proxy_reset_excludes_global : the retry test of onUpstreamReset has the conjunct `reason != types.UpstreamGlobalTimeout` (go/ast)
+//   proxy_reset_reads_status : the `if` of doRetryCheck that calls MappingHeaderStatusCode is entered for resets too (condition is
+//                          just `ctx != nil`); false when it also requires `reason == ""` or `headers != nil` (go/ast)
+//   proxy_res_counts_unlimited : resource.Increase / Decrease of the cluster resource manager are not guarded by `r.max != 0` (go/ast)
 //   proxy_hijack_clears_body : sendHijackReply assigns downstreamRespDataBuf = nil at top level (go/ast)
 //   proxy_put_resets_cursor : streamfilter.PutStreamFilterChain (or a chain method it calls) assigns 0 to both cursors (go/ast)
 //   proxy_default_global_ms : types.GlobalTimeout (evaluated)
@@ -422,6 +426,146 @@ func genProxyTokens(repo string) (string, error) {
 	if err != nil {
 		return "", err
 	}
+	// --- onUpstreamReset: is UpstreamGlobalTimeout kept away from the retry state?
+	var conjuncts func(e ast.Expr) []ast.Expr
+	conjuncts = func(e ast.Expr) []ast.Expr {
+		if pe, isP := e.(*ast.ParenExpr); isP {
+			return conjuncts(pe.X)
+		}
+		if be, isBin := e.(*ast.BinaryExpr); isBin && be.Op == token.LAND {
+			return append(conjuncts(be.X), conjuncts(be.Y)...)
+		}
+		return []ast.Expr{e}
+	}
+	cmp := func(e ast.Expr, op token.Token, lhs string, rhs func(ast.Expr) bool) bool {
+		be, isBin := e.(*ast.BinaryExpr)
+		if !isBin || be.Op != op {
+			return false
+		}
+		id, isID := be.X.(*ast.Ident)
+		return isID && id.Name == lhs && rhs(be.Y)
+	}
+	exclG, exclSeen := false, false
+	if ur := FindFunc(f, "downStream", "onUpstreamReset"); ur != nil {
+		for _, st := range ur.Body.List {
+			is, isIf := st.(*ast.IfStmt)
+			if !isIf {
+				continue
+			}
+			calls := false
+			ast.Inspect(is, func(n ast.Node) bool {
+				if ce, isCall := n.(*ast.CallExpr); isCall {
+					if se, isSel := ce.Fun.(*ast.SelectorExpr); isSel && se.Sel.Name == "retry" {
+						calls = true
+					}
+				}
+				return true
+			})
+			if !calls {
+				continue
+			}
+			exclSeen = true
+			for _, cj := range conjuncts(is.Cond) {
+				if cmp(cj, token.NEQ, "reason", func(y ast.Expr) bool {
+					se, isSel := y.(*ast.SelectorExpr)
+					return isSel && se.Sel.Name == "UpstreamGlobalTimeout"
+				}) {
+					exclG = true
+				}
+			}
+			break
+		}
+	}
+	if !exclSeen {
+		ok = false
+	}
+	fmt.Fprintf(&b, "Definition proxy_reset_excludes_global : bool := %v.\n", exclG)
+	// --- doRetryCheck: is the status mapping consulted when a reset is judged?
+	readsStatus, mapSeen := true, 0
+	if dc := FindFunc(rf, "retryState", "doRetryCheck"); dc != nil {
+		ast.Inspect(dc.Body, func(n ast.Node) bool {
+			is, isIf := n.(*ast.IfStmt)
+			if !isIf {
+				return true
+			}
+			direct := false // the mapping is called by a statement of this if's own block
+			for _, st := range is.Body.List {
+				if as, isAs := st.(*ast.AssignStmt); isAs && len(as.Rhs) == 1 {
+					if ce, isCall := as.Rhs[0].(*ast.CallExpr); isCall {
+						if se, isSel := ce.Fun.(*ast.SelectorExpr); isSel && se.Sel.Name == "MappingHeaderStatusCode" {
+							direct = true
+						}
+					}
+				}
+			}
+			if !direct {
+				return true
+			}
+			mapSeen++
+			for _, cj := range conjuncts(is.Cond) {
+				isEmpty := func(y ast.Expr) bool { l, isLit := y.(*ast.BasicLit); return isLit && l.Value == `""` }
+				isNil := func(y ast.Expr) bool { id, isID := y.(*ast.Ident); return isID && id.Name == "nil" }
+				switch {
+				case cmp(cj, token.EQL, "reason", isEmpty), cmp(cj, token.NEQ, "headers", isNil):
+					readsStatus = false
+				case cmp(cj, token.NEQ, "ctx", isNil):
+				default:
+					ok = false // a condition this translator does not understand
+				}
+			}
+			return true
+		})
+	}
+	if mapSeen != 1 {
+		ok = false
+	}
+	fmt.Fprintf(&b, "Definition proxy_reset_reads_status : bool := %v.\n", readsStatus)
+	// --- cluster resource manager: do Increase / Decrease count while no limit is configured (max == 0)?
+	countsUnlimited := false
+	if _, mf, err := ParseGoFile(repo, "pkg/upstream/cluster/resource_manager.go"); err == nil {
+		shapeOf := func(name string) int { // 1 = guarded by `r.max != 0`, 2 = unconditional, 0 = not understood
+			fd := FindFunc(mf, "resource", name)
+			if fd == nil || len(fd.Body.List) != 1 {
+				return 0
+			}
+			adds := func(n ast.Node) bool {
+				found := false
+				ast.Inspect(n, func(x ast.Node) bool {
+					if ce, isCall := x.(*ast.CallExpr); isCall {
+						if se, isSel := ce.Fun.(*ast.SelectorExpr); isSel && se.Sel.Name == "AddInt64" {
+							found = true
+						}
+					}
+					return true
+				})
+				return found
+			}
+			switch st := fd.Body.List[0].(type) {
+			case *ast.ExprStmt:
+				if adds(st) {
+					return 2
+				}
+			case *ast.IfStmt:
+				be, isBin := st.Cond.(*ast.BinaryExpr)
+				if isBin && be.Op == token.NEQ && st.Else == nil && adds(st.Body) {
+					if se, isSel := be.X.(*ast.SelectorExpr); isSel && se.Sel.Name == "max" {
+						if l, isLit := be.Y.(*ast.BasicLit); isLit && l.Value == "0" {
+							return 1
+						}
+					}
+				}
+			}
+			return 0
+		}
+		si, sd := shapeOf("Increase"), shapeOf("Decrease")
+		if si == 0 || si != sd {
+			ok = false
+		}
+		countsUnlimited = si == 2
+	} else {
+		ok = false
+	}
+	fmt.Fprintf(&b, "Definition proxy_res_counts_unlimited : bool := %v.\n", countsUnlimited)
 	minBudget := ""
 	if nf := FindFunc(rf, "", "newRetryState"); nf != nil {
 		ast.Inspect(nf.Body, func(n ast.Node) bool {
@@ -487,7 +631,7 @@ func genProxyTokens(repo string) (string, error) {
 		}
 	}
 	fmt.Fprintf(&b, "Definition proxy_default_global_ms : Z := %d.\n", int64(types.GlobalTimeout/time.Millisecond))
-	b.WriteString("Definition proxy_src : srcp :=\n  {| loop_bound := proxy_loop_bound; min_budget := proxy_min_budget; reset_guarded := proxy_reset_guarded;\n     direct_clears_again := proxy_direct_clears_again;\n     direct_cancels_retry := proxy_direct_cancels_retry; direct_resets_upstream := proxy_direct_resets_upstream;\n     put_resets_cursor := proxy_put_resets_cursor;\n     retry_checks_direct := proxy_retry_checks_direct; retry_refinalizes := proxy_retry_refinalizes;\n     timers_reset_stream := proxy_timers_reset_stream; hijack_clears_body := proxy_hijack_clears_body;\n     retry_clears_reuse := proxy_retry_clears_reuse; setupretry_clears_reuse := proxy_setupretry_clears_reuse;\n     global_lost_cas_stops := proxy_global_lost_cas_stops; append_error_continues := proxy_append_error_continues;\n     reason_code := proxy_reason_code |}.\n")
+	b.WriteString("Definition proxy_src : srcp :=\n  {| loop_bound := proxy_loop_bound; min_budget := proxy_min_budget; reset_guarded := proxy_reset_guarded;\n     direct_clears_again := proxy_direct_clears_again;\n     direct_cancels_retry := proxy_direct_cancels_retry; direct_resets_upstream := proxy_direct_resets_upstream;\n     put_resets_cursor := proxy_put_resets_cursor;\n     retry_checks_direct := proxy_retry_checks_direct; retry_refinalizes := proxy_retry_refinalizes;\n     timers_reset_stream := proxy_timers_reset_stream; hijack_clears_body := proxy_hijack_clears_body;\n     retry_clears_reuse := proxy_retry_clears_reuse; setupretry_clears_reuse := proxy_setupretry_clears_reuse;\n     global_lost_cas_stops := proxy_global_lost_cas_stops; append_error_continues := proxy_append_error_continues;\n     reset_excludes_global := proxy_reset_excludes_global; reset_reads_status := proxy_reset_reads_status;\n     res_counts_unlimited := proxy_res_counts_unlimited;\n     reason_code := proxy_reason_code |}.\n")
 	fmt.Fprintf(&b, "Definition ProxyTokens_translator_ok := %v.\n", ok)
 	return b.String(), nil
 }
